@@ -26,6 +26,20 @@ IsInscriptionT(s) == Len(s) > 25 /\ IsP2PKHT(SubSeq(s, 1, 25)) /\ WellFormed(s) 
                      /\ IsDataPush(t[10].op) /\ t[11].op = OP_0 /\ (IsDataPush(t[12].op) \/ t[12].op = OP_0) /\ t[13].op = OP_ENDIF
                      /\ (Len(t) > 13 => t[14].op = OP_RETURN)
 
+\* The library's own test (isP2PKHInscriptionHelper) works on the *parts* view and is looser than the template: any
+\* part may stand where an opcode is expected as long as its first byte is that opcode, the hash push may have any
+\* length.  It decides which spent scripts the size estimate supports, so it is specified as the code has it.
+LibInscription(s) ==
+    WellFormed(s) /\
+    LET p == PartsOf(Tokenize(s)) IN
+    /\ Len(p) >= 13
+    /\ \A i \in 1..Mn(14, Len(p)) : (p[i] = <<>>) => i \in {3, 10, 12}
+    /\ Len(p[8]) >= 3
+    /\ p[1][1] = OP_DUP /\ p[2][1] = OP_HASH160 /\ p[4][1] = OP_EQUALVERIFY /\ p[5][1] = OP_CHECKSIG
+    /\ p[6][1] = OP_0 /\ p[7][1] = OP_IF /\ SubSeq(p[8], 1, 3) = <<111, 114, 100>> /\ p[9][1] = OP_1
+    /\ p[11][1] = OP_0 /\ p[13][1] = OP_ENDIF
+    /\ (Len(p) > 13 => p[14][1] = OP_RETURN)
+
 TemplateType(s) == IF s = <<>> THEN "empty"
                    ELSE IF IsP2PKHT(s) THEN "pubkeyhash"
                    ELSE IF IsP2PKT(s) THEN "pubkey"
